@@ -1,6 +1,7 @@
 package main
 
 import (
+	"context"
 	"encoding/json"
 	"fmt"
 	"os"
@@ -60,9 +61,20 @@ func newConcRun(cfg *RunCfg, rep *Reporter, cov *Cov, id string, opts OpenOpts) 
 	return cr
 }
 
+// close closes the log; after a deadlock inside klevdb Close itself never returns (it needs the
+// locks the stuck calls hold), so it is given ten seconds and then abandoned with its goroutine.
 func (cr *concRun) close() {
 	if cr.l != nil {
-		kClose(cr.l)
+		done := make(chan struct{})
+		go func() {
+			kClose(cr.l)
+			close(done)
+		}()
+		select {
+		case <-done:
+		case <-time.After(10 * time.Second):
+			cr.cov.Add("close_abandoned_after_deadlock", 1)
+		}
 	}
 	os.RemoveAll(cr.dir)
 }
@@ -248,6 +260,7 @@ func (cr *concRun) runPerturb(idx int, seed int64, nClients, nOps int) {
 	installHook(nil)
 	replay := map[string]any{"phase": "perturb", "history_index": idx, "seed": seed, "clients": nClients, "opts": cr.opts}
 	if deadlocked {
+		cr.cov.Add("perturb.watchdog_fired", 1)
 		cr.judgeStuck(clients, replay)
 		return
 	}
@@ -978,6 +991,12 @@ func runC08(cfg *RunCfg, rep *Reporter, cov *Cov, ev *Evidence) {
 		}
 		cr.runPerturb(i, cfg.Seed, 3+r.Intn(6), 12+r.Intn(24))
 		cr.close()
+		if cov.Get("perturb.watchdog_fired") >= 2 {
+			// calls that never return: each further history would sit out its watchdog as well; what
+			// was seen is reported, the rest of the phase adds nothing
+			cov.Add("perturb.phase_cut_short_after_deadlocks", 1)
+			break
+		}
 	}
 	nham := 2
 	if cfg.Tier == "thorough" {
@@ -1373,7 +1392,16 @@ func runChild(cfg *RunCfg, rep *Reporter, cov *Cov, mode string, idx int) {
 		rep.Inconclusive("non-race binary for the " + mode + " scenario is missing")
 		return
 	}
-	out, err := exec.Command(bin, mode, strconv.Itoa(idx), cfg.Scratch).Output()
+	// generous wall-clock watchdog (a run takes seconds): its firing is inconclusive, not a verdict
+	ctx, cancel := context.WithTimeout(context.Background(), 5*time.Minute)
+	defer cancel()
+	cmd := exec.CommandContext(ctx, bin, mode, strconv.Itoa(idx), cfg.Scratch)
+	cmd.WaitDelay = 5 * time.Second
+	out, err := cmd.Output()
+	if ctx.Err() != nil {
+		rep.Inconclusive(mode + " child did not finish within its watchdog")
+		return
+	}
 	if err != nil {
 		rep.Inconclusive(mode + " child failed: " + clipStr(err.Error(), 100))
 		return
